@@ -85,7 +85,15 @@ func (nd *KVNode) scanCommand(cmd redcon.Command) (interface{}, error) {
 	if length < count || (count == 0 && length == 0) {
 		nextCursor = []byte("")
 	} else {
-		nextCursor = ay[len(ay)-1]
+		// the next cursor is the key without the table as advscan does,
+		// since the merged scan in server will add the table prefix to the cursor of each partition
+		item := ay[len(ay)-1]
+		_, rk, err := common.ExtractTable(item)
+		if err != nil {
+			nextCursor = []byte("")
+		} else {
+			nextCursor = rk
+		}
 	}
 
 	if length > 0 {
